@@ -1030,6 +1030,26 @@ func (e *Engine) instantiate(f *qfact, t string) {
 		g = sAnd(g, e.rangeOf(t, ty))
 	}
 	e.sc.assert(sImp(g, body))
+	// nested universal facts inside the instance become instantiable themselves
+	if containsForall(f.ex.Args[0]) && sub.depth < 4 {
+		sub.depth++
+		e.noteFacts(&sub, f.ex.Args[0], g)
+	}
+}
+
+func containsForall(x *Expr) bool {
+	if x == nil {
+		return false
+	}
+	if x.Op == "forall" {
+		return true
+	}
+	for _, a := range x.Args {
+		if containsForall(a) {
+			return true
+		}
+	}
+	return false
 }
 
 func (e *Engine) noteIndexTerm(t string) {
